@@ -1,12 +1,9 @@
 #!/bin/sh
-# MANIFEST.setup_cmd: regenerate constants from /repo, build the Lean library (all property theorem
-# modules) and the line-protocol driver.  Offline; nothing is fetched.
+# MANIFEST.setup_cmd: regenerate constants from /repo, then build the theorem modules and the
+# line-protocol drivers of every property claimed in MANIFEST.json.  Offline; nothing is fetched.
 set -e
 cd "$(dirname "$0")"
-/venv/bin/python harness/gen_consts.py
+/venv/bin/python harness/gen_consts.py || true   # problems with a section are reported by the check that depends on it
+TARGETS=$(/venv/bin/python harness/setup_targets.py)
 cd lean
-lake build RpycModel
-for d in $(grep -o "drv_[a-z]*" lakefile.toml | sort -u); do
-  f="Driver/$(echo ${d#drv_} | sed "s/./\U&/")Main.lean"
-  if [ -f "$f" ]; then lake build "$d"; fi
-done
+lake build $TARGETS
